@@ -29,6 +29,7 @@ SAMPLE = {
     "&'l0 str": ('"lt"', "lt"),
     "Box<str>": ('Box::<str>::from("boxed")', "boxed"), "Wrap": ('Wrap(String::from("wr"))', "wr"),
     "f32": ("1.5f32", "1.5"),
+    "Tick": ("Tick(5)", None), "Boom": ("Boom", None),      # hp.rs: Default counts constructions; an inherent `default()` returns another value
     # types that are NOT Send / Sync, and a few structured ones (none of them is Display)
     "std::rc::Rc<u8>": ("std::rc::Rc::new(9u8)", None), "std::cell::Cell<u8>": ("std::cell::Cell::new(9u8)", None),
     "()": ("()", None), "[u8; 3]": ("[1u8, 2, 3]", None), "(u8, bool)": ("(5u8, true)", None),
